@@ -1,5 +1,5 @@
 (* C11 — case type and judge for the correspondence check (kept apart from the model proper). *)
-Require Import V.Lib V.C11_Model.
+Require Import V.Lib V.C11_Model V.C11_Exec.
 Open Scope Z_scope.
 
 Definition obs1 := ((N * N) * (list (list N) * Z))%type.
@@ -32,7 +32,14 @@ Definition obs1_eqb (a b : obs1) : bool :=
 Inductive case :=
 | CDisp (toks : list token) (ops : list N) (obs : list obs1) (panicked : bool)
 (* classes: 0 ok, 1 error, 2 panic, 3 timeout — of validate mode and of execute mode *)
-| CConf (validate execute : N).
+| CConf (validate execute : N)
+(* a server block with several keys and one directive: class of the directive set up for each key
+   alone (validate mode), and of the whole block in validate and in execute mode *)
+| CConfKeys (perkey : list N) (validate execute : N)
+(* a configuration whose setup does an amount of work that depends on its arguments (upstream port
+   ranges): classes as above, wall time in ms and allocated memory in KiB of the slower mode, and the
+   bounds they are held against *)
+| CConfCost (validate execute : N) (ms kib : N) (max_ms max_kib : N).
 
 Definition judge (c : case) : N :=
   match c with
@@ -45,4 +52,13 @@ Definition judge (c : case) : N :=
       verdict agree (negb panicked)
   | CConf v x =>
       verdict true ((v <? 2)%N && (x <? 2)%N && (v =? x)%N)
+  | CConfKeys perkey v x =>
+      (* model: executeDirectives sets the directive up for the keys in order, in BOTH modes; the first
+         rejected key ends the load (C09_Model.execute instantiated with the observed per-key outcomes) *)
+      let known := forallb (fun c => (c <? 2)%N) perkey in
+      let agree := negb known ||
+                   ((v =? predict_block false perkey)%N && (x =? predict_block true perkey)%N) in
+      verdict agree ((v <? 2)%N && (x <? 2)%N && (v =? x)%N)
+  | CConfCost v x ms kib max_ms max_kib =>
+      verdict true ((v <? 2)%N && (x <? 2)%N && (v =? x)%N && (ms <=? max_ms)%N && (kib <=? max_kib)%N)
   end.
